@@ -627,10 +627,36 @@ BOUNDED_RECURSIVE = set()
 FORK_CONST_SELECT = True
 
 
-def _is_loader(g):
-    """a byte loader of the loaders module (internal/loaders.c or, as `static inline`, internal/loaders.h)"""
-    import os
-    return os.path.basename(g.file or "").split(".")[0] == "loaders" and g.name.startswith("_cbor_load_")
+_LOADER_MEMO = {}
+
+
+def _is_loader(g, depth=0):
+    """a byte loader, wherever it is defined (its own module, a header, or the decoder's unit): one parameter, a byte pointer; a number
+    comes back; nothing is written outside its own locals; besides assembling the bytes it calls only other loaders, block-copy /
+    byte-swap intrinsics and libc's scaling routine.  The decoder's rules speak of "the result of the loader of width w"."""
+    key = (id(g), g.name)
+    if key in _LOADER_MEMO:
+        return _LOADER_MEMO[key]
+    ok = False
+    if g.name.startswith("_cbor_load_") and len(g.params) == 1 and g.params[0]["type"] == "i8*" and g.ret_type in ("i8", "i16", "i32", "i64", "float", "double") and g.blocks:
+        ok = True
+        for i in g.all_insts():
+            if i.op == "store":
+                b = strip_casts(i.operands[1])
+                while isinstance(b, Inst) and b.op in ("getelementptr", "bitcast"):
+                    b = b.operands[0]
+                if not (isinstance(b, Inst) and b.op == "alloca"):
+                    ok = False
+            elif i.op == "call":
+                c = i.callee or ""
+                if c.startswith("llvm.") or c in ("memcpy", "ldexp", "ldexpf", "_cbor_decode_half"):
+                    continue
+                h = g.mod.get("_funcs", {}).get(c) if isinstance(g.mod, dict) else None
+                if c.startswith("_cbor_load_") and depth < 3:
+                    continue
+                ok = False
+    _LOADER_MEMO[key] = ok
+    return ok
 
 
 def is_helper(prog, g):
